@@ -1,0 +1,10 @@
+//go:build verif
+
+package reputation
+
+// Machine-checked contracts (govc, see /verif/DESIGN.md). Comment-only file.
+
+// ---- C35: see pkg/innerring/processors/container/verif_contracts.go
+//@ func (*Processor).approvePutReputation
+//@   property C35
+//@   requires [caller_checked_alphabet_membership] isAlpha()
